@@ -57,8 +57,16 @@ fn dev_mesh(rng: &mut Rng) {
         let (a, b, c) = (mesh.vertices()[f[0] as usize], mesh.vertices()[f[1] as usize], mesh.vertices()[f[2] as usize]);
         let (u, w) = (rng.unit(), rng.unit());
         let (u, w) = if u + w > 1.0 { (1.0 - u, 1.0 - w) } else { (u, w) };
+        // interior of the face, on one of its edges, or at a vertex (there the closest point of a nearby
+        // query is on the edge / vertex and the offset is NOT along the face normal)
+        let (u, w) = match rng.below(4) {
+            0 => (u, 0.0),
+            1 => (0.0, 0.0),
+            _ => (u, w),
+        };
         let base = Point3::from(a.coords * (1.0 - u - w) + b.coords * u + c.coords * w);
-        let off = *rng.pick(&[0.0, 1e-8, 1e-4, 0.05, 0.5]);
+        // distances from far below the on-surface threshold of the code (1e-6) to the size of the part
+        let off = if rng.chance(0.5) { *rng.pick(&[0.0, 1e-8, 1e-4, 0.05, 0.5]) } else { 10f64.powf(rng.range(-7.5, 0.0)) };
         let d = Vector3::new(rng.gauss(), rng.gauss(), rng.gauss());
         let q = base + d * off;
         for is_point in [true, false] {
